@@ -19,28 +19,11 @@ int xv_dnstc_any_errno(void)
     return e;
 }
 
-/* TRUSTED(libc) memcpy(3), EXACT, for address lists (n = k * sizeof(struct xcm_addr_ip), k <= 32: asserted).  env/base.h
- * replaces memcpy by an over-approximation that keeps 9 bytes only (made for 64 KiB frames); track_create's copy of the
- * address list must be exact (the families in it decide which addresses are tried), so ut_memdup below copies with this
- * one: element by element, written out (no loop: nothing to unwind), every element copy a checked write. */
-#include <xcm_addr.h>
-void *xv_memcpy_exact(void *dst, const void *src, size_t n)
-{
-    __CPROVER_assert(n == 0 || __CPROVER_r_ok(src, n), "memcpy source region readable");
-    __CPROVER_assert(n == 0 || __CPROVER_w_ok(dst, n), "memcpy destination region writeable");
-    __CPROVER_assert(n % sizeof(struct xcm_addr_ip) == 0 && n <= 32 * sizeof(struct xcm_addr_ip), "exact memcpy model: a list of at most 32 struct xcm_addr_ip");
-    size_t k = n / sizeof(struct xcm_addr_ip);
-    struct xcm_addr_ip *d_ = dst; const struct xcm_addr_ip *s_ = src;
-#define XV_CPE(q) if ((q) < k) d_[q] = s_[q];
-    XV_CPE(0) XV_CPE(1) XV_CPE(2) XV_CPE(3) XV_CPE(4) XV_CPE(5) XV_CPE(6) XV_CPE(7) XV_CPE(8) XV_CPE(9) XV_CPE(10) XV_CPE(11) XV_CPE(12) XV_CPE(13) XV_CPE(14) XV_CPE(15)
-    XV_CPE(16) XV_CPE(17) XV_CPE(18) XV_CPE(19) XV_CPE(20) XV_CPE(21) XV_CPE(22) XV_CPE(23) XV_CPE(24) XV_CPE(25) XV_CPE(26) XV_CPE(27) XV_CPE(28) XV_CPE(29) XV_CPE(30) XV_CPE(31)
-    return dst;
-}
-/* TRUSTED(common/util.c) ut_memdup: same text as util.c, memcpy = the exact model above */
+/* TRUSTED(common/util.c) ut_memdup, same text (memcpy is env/base.h's model) */
 void *ut_memdup(const void *ptr, size_t size)
 {
     void *copy = ut_malloc(size);
-    xv_memcpy_exact(copy, ptr, size);
+    memcpy(copy, ptr, size);
     return copy;
 }
 
